@@ -1,11 +1,19 @@
 (* C13 model driver.  Requests (tokens separated by blanks; byte strings in hex, "-" = empty;
    times and mtimes in decimal nanoseconds; {X} = X repeated the number of times given before it):
 
-     run <refresh:0|1> <trimtxt|none> <nroot> {OBJ} <k> {<subdir> <count> {OBJ}} <nev> {EV}
-         OBJ = <name> <mtime> <data> <kind F|E|D|L>
-         EV  = G <u> <ia> <na> | L <u> <ia> <na> <id> <nd>
-             | S <u> <ia> <na> <da> <id> <nd> <dd> | T <u>
-       -> D <trimtxt|none> <nroot> {OBJ} <k> {<subdir> <count> {OBJ}}       (non-empty subdirs only)
+     DIR  = <trimtxt|none|dir> <nroot> {OBJ} <nabsent> {<subdir>} <k> {<subdir> <count> {OBJ}}
+            ("dir": trim.txt is a directory, i.e. unreadable and unwritable; absent subdirectories
+             do not exist; only non-empty subdirectories are listed)
+     OBJ  = <name> <mtime> <data> <kind F|S|E|D|L>       (S = symbolic link to a regular file)
+     EV   = G <u> <ia> <na> | L <u> <ia> <na> <id> <nd> | O <u> <id> <nd>
+          | S <u> <ud> <ia> <na> <da> <id> <nd> <dd> | P <u> <ud> <id> <nd> <dd> | T <u>
+            (P = a Put whose data part was carried out and whose index part failed)
+
+     run <refresh:0|1> DIR <nev> {EV}   -> D DIR E <one 0/1 per T event: Trim returned an error>
+     holds DIR <nev> {EV}               -> true|false     (c13_holds_on)
+     prefix <k> <now> DIR               -> D DIR          (trim_prefix k now)
+     conc <data:0|1> <now> <u> <sched: string of t/l> OBJ
+                                        -> <file: OBJ|none> <lookup: hit|miss|running>
      due <now> <trimtxt|none>     -> true|false          (trim_due)
      parse <hex>                  -> some <decimal> | none   (parse_int (trim_space x))
      entry <hex>                  -> true|false          (is_entry_name)
@@ -27,14 +35,12 @@ let string_of_z (x : z) : string = string_of_bytes (decimal x)
 
 let nsub = int_of_string (string_of_z open_subdir_count)
 
-let kind_of = function "F" -> KFile | "E" -> KEmptyDir | "D" -> KFullDir | "L" -> KDangling
+let kind_of = function "F" -> KFile | "S" -> KLink | "E" -> KEmptyDir | "D" -> KFullDir | "L" -> KDangling
   | _ -> failwith "bad kind"
-let show_kind = function KFile -> "F" | KEmptyDir -> "E" | KFullDir -> "D" | KDangling -> "L"
+let show_kind = function KFile -> "F" | KLink -> "S" | KEmptyDir -> "E" | KFullDir -> "D" | KDangling -> "L"
 
 let show_obj o =
   String.concat " " [hex_of_bytes o.oname; string_of_z o.omtime; hex_of_bytes o.odata; show_kind o.okind_of]
-let show_rec = function None -> "none" | Some b -> hex_of_bytes b
-let read_rec = function "none" -> None | h -> Some (bytes_of_hex h)
 
 (* a tiny token reader *)
 let toks = ref []
@@ -46,49 +52,84 @@ let read_obj () =
 let rec read_n k f = if k <= 0 then [] else let x = f () in x :: read_n (k - 1) f
 
 let read_event () =
+  let z () = z_of_string (next ()) in
+  let n () = nat_of_int (next_int ()) in
+  let b () = bytes_of_hex (next ()) in
   match next () with
-  | "G" -> let u = next () in let ia = next_int () in let na = next () in
-           EGet (z_of_string u, nat_of_int ia, bytes_of_hex na)
-  | "L" -> let u = next () in let ia = next_int () in let na = next () in
-           let id = next_int () in let nd = next () in
-           ELookup (z_of_string u, nat_of_int ia, bytes_of_hex na, nat_of_int id, bytes_of_hex nd)
-  | "S" -> let u = next () in let ia = next_int () in let na = next () in let da = next () in
-           let id = next_int () in let nd = next () in let dd = next () in
-           EStore (z_of_string u, nat_of_int ia, bytes_of_hex na, bytes_of_hex da,
-                   nat_of_int id, bytes_of_hex nd, bytes_of_hex dd)
-  | "T" -> let u = next () in ETrim (z_of_string u)
+  | "G" -> let u = z () in let ia = n () in let na = b () in EGet (u, ia, na)
+  | "L" -> let u = z () in let ia = n () in let na = b () in let id = n () in let nd = b () in
+           ELookup (u, ia, na, id, nd)
+  | "O" -> let u = z () in let id = n () in let nd = b () in EOutput (u, id, nd)
+  | "S" -> let u = z () in let ud = z () in let ia = n () in let na = b () in let da = b () in
+           let id = n () in let nd = b () in let dd = b () in
+           EStore (u, ud, ia, na, da, id, nd, dd)
+  | "P" -> let u = z () in let ud = z () in let id = n () in let nd = b () in let dd = b () in
+           EStoreData (u, ud, id, nd, dd)
+  | "T" -> let u = z () in ETrim u
   | _ -> failwith "bad event"
 
-let show_dir (c : cdir) =
-  let subs = List.mapi (fun i l -> (i, l)) c.subdirs in
-  let ne = List.filter (fun (_, l) -> l <> []) subs in
-  String.concat " "
-    (["D"; show_rec c.trimtxt; string_of_int (List.length c.rootobjs)]
-     @ List.map show_obj c.rootobjs
-     @ [string_of_int (List.length ne)]
-     @ List.concat_map (fun (i, l) -> string_of_int i :: string_of_int (List.length l) :: List.map show_obj l) ne)
-
-let handle_run () =
-  let refresh = next () = "1" in
-  let record = read_rec (next ()) in
+let read_dir () : cdir =
+  let r = next () in
+  let record, blocked = match r with
+    | "none" -> None, false | "dir" -> None, true | h -> Some (bytes_of_hex h), false in
   let nroot = next_int () in
   let root = read_n nroot read_obj in
+  let tab = Array.make nsub (Some []) in
+  let nabs = next_int () in
+  for _ = 1 to nabs do tab.(next_int ()) <- None done;
   let k = next_int () in
-  let tab = Array.make nsub [] in
   for _ = 1 to k do
     let i = next_int () in
     let cnt = next_int () in
-    tab.(i) <- read_n cnt read_obj
+    tab.(i) <- Some (read_n cnt read_obj)
   done;
-  let nev = next_int () in
-  let evs = read_n nev read_event in
-  let c = { subdirs = Array.to_list tab; rootobjs = root; trimtxt = record } in
-  show_dir (run refresh c evs)
+  { subdirs = Array.to_list tab; rootobjs = root; trimtxt = record; trimblocked = blocked }
+
+let show_dir (c : cdir) =
+  let subs = List.mapi (fun i l -> (i, l)) c.subdirs in
+  let absent = List.filter (fun (_, l) -> l = None) subs in
+  let ne = List.filter_map (fun (i, l) -> match l with Some (_ :: _ as l) -> Some (i, l) | _ -> None) subs in
+  let record = if c.trimblocked then "dir" else match c.trimtxt with None -> "none" | Some b -> hex_of_bytes b in
+  String.concat " "
+    (["D"; record; string_of_int (List.length c.rootobjs)]
+     @ List.map show_obj c.rootobjs
+     @ [string_of_int (List.length absent)] @ List.map (fun (i, _) -> string_of_int i) absent
+     @ [string_of_int (List.length ne)]
+     @ List.concat_map (fun (i, l) -> string_of_int i :: string_of_int (List.length l) :: List.map show_obj l) ne)
+
+let read_events () = let nev = next_int () in read_n nev read_event
+
+let handle_run () =
+  let refresh = next () = "1" in
+  let c = read_dir () in
+  let evs = read_events () in
+  let errs = Buffer.create 8 in
+  let final = List.fold_left (fun c e ->
+    (match e with ETrim u -> Buffer.add_char errs (if trim_err u c then '1' else '0') | _ -> ());
+    step refresh c e) c evs in
+  show_dir final ^ " E " ^ (if Buffer.length errs = 0 then "-" else Buffer.contents errs)
+
+let handle_conc () =
+  let data = next () = "1" in
+  let now = z_of_string (next ()) in
+  let u = z_of_string (next ()) in
+  let sched = next () in
+  let o = read_obj () in
+  let sch = List.init (String.length sched) (fun i -> sched.[i] = 't') in
+  let s = c_run data (trim_cutoff now) u sch (c_init o) in
+  (match s.cfile with Some o -> show_obj o | None -> "none") ^ " " ^
+  (match s.clp with LDone true -> "hit" | LDone false -> "miss" | _ -> "running")
 
 let () = serve (fun req ->
   match req with
   | "run" :: r -> toks := r; handle_run ()
-  | ["due"; now; record] -> string_of_bool (trim_due (z_of_string now) (read_rec record))
+  | "holds" :: r -> toks := r; let c = read_dir () in let evs = read_events () in
+                    string_of_bool (c13_holds_on c evs)
+  | "prefix" :: k :: now :: r -> toks := r; let c = read_dir () in
+                    show_dir (trim_prefix (nat_of_int (int_of_string k)) (z_of_string now) c)
+  | "conc" :: r -> toks := r; handle_conc ()
+  | ["due"; now; record] ->
+      string_of_bool (trim_due (z_of_string now) (match record with "none" -> None | h -> Some (bytes_of_hex h)))
   | ["parse"; x] ->
       (match parse_int (trim_space (bytes_of_hex x)) with
        | Some v -> "some " ^ string_of_z v | None -> "none")
